@@ -186,7 +186,7 @@ class Verdict:
         lines = []
         unlisted = 0
         known_hits = {}
-        rdir = os.path.join(VERIF, "replays", self.prop)
+        rdir = os.path.join(os.environ.get("J2M_VERIF_REPLAY_DIR") or os.path.join(VERIF, "replays"), self.prop)
         state = repo_state()
         for mech, v in sorted(self.violations.items()):
             if mech in known:
@@ -242,8 +242,9 @@ class Verdict:
             "violations": unlisted,
             "verdict": "violated" if unlisted else ("inconclusive" if reasons else "held"),
         }
-        os.makedirs(os.path.join(VERIF, "evidence"), exist_ok=True)
-        with open(os.path.join(VERIF, "evidence", f"{self.prop}.json"), "w") as f:
+        evdir = os.environ.get("J2M_VERIF_EVIDENCE_DIR") or os.path.join(VERIF, "evidence")
+        os.makedirs(evdir, exist_ok=True)
+        with open(os.path.join(evdir, f"{self.prop}.json"), "w") as f:
             json.dump(ev, f, indent=1, default=repr, ensure_ascii=False)
         for ln in lines:
             print(ln)
